@@ -410,5 +410,160 @@ end Exec
 def opensStream (localId remoteId : Bytes) : Bool :=
   !(lexLt (idB58Encode remoteId) (idB58Encode localId))
 
+/-! ## Part 5 — the pubsub controller's link table (C29): `pubsub/controller`
+`establishLinkHandler.HandleValueAdded/Removed`, the `incLinks` loop of `Controller.Execute`, and
+`trackedLink.trackLink`. A controller is NOT bound to one local identity (the floodsub factory
+passes the empty peer id): every link carries its own local identity and the opener rule is
+evaluated with THAT identity. -/
+namespace Ctl
+
+/-- one end of a link as the controller sees it (`link.MountedLink`) -/
+structure Link where
+  uuid : Nat
+  localId : Bytes      -- `GetLocalPeer()`
+  remoteId : Bytes     -- `GetRemotePeer()`
+deriving Repr, DecidableEq
+
+/-- `pubsub.NewPeerLinkTuple` -/
+def tplOf (l : Link) : Bytes × Nat := (l.remoteId, l.uuid)
+
+structure State where
+  inc : List Link := []        -- `c.incLinks`
+  tracked : List Link := []    -- `c.links`: trackers started by the loop that have not run yet
+  opened : List Link := []     -- ghost: every `OpenMountedStream` (followed by `AddPeerStream(tpl, true, …)`)
+  cache : Option Bytes := none -- only used by the refuted variant `stepCached`
+deriving Repr
+
+inductive Ev where
+  | added (l : Link)      -- `HandleValueAdded`
+  | removed (l : Link)    -- `HandleValueRemoved`: drop one pending entry, cancel the tracker of the tuple
+  | loop                  -- one pass of the `incLinks` loop in `Execute` (replaces trackers of the same tuple)
+  | track (k : Nat)       -- the k-th started tracker runs `trackLink` to its end
+deriving Repr, DecidableEq
+
+def step (s : State) : Ev → State
+  | .added l => { s with inc := s.inc ++ [l] }
+  | .removed l => { s with inc := s.inc.erase l, tracked := s.tracked.filter (fun t => tplOf t ≠ tplOf l) }
+  | .loop => { s with tracked := (s.tracked.filter fun t => !(s.inc.any fun i => decide (tplOf i = tplOf t))) ++ s.inc
+                      inc := [] }
+  | .track k =>
+    match s.tracked[k]? with
+    | none => s
+    | some l => { s with tracked := s.tracked.eraseIdx k
+                         opened := if opensStream l.localId l.remoteId then s.opened ++ [l] else s.opened }
+
+def run (s : State) (evs : List Ev) : State := evs.foldl step s
+
+/-- The seeded variant: the local identity is computed once per controller (from the first link
+that is tracked) and re-used for every later link. -/
+def stepCached (s : State) : Ev → State
+  | .track k =>
+    match s.tracked[k]? with
+    | none => s
+    | some l =>
+      let me := s.cache.getD l.localId
+      { s with tracked := s.tracked.eraseIdx k
+               cache := some me
+               opened := if opensStream me l.remoteId then s.opened ++ [l] else s.opened }
+  | ev => step s ev
+
+def runCached (s : State) (evs : List Ev) : State := evs.foldl stepCached s
+
+end Ctl
+
+/-! ## Part 6 — the receiving side of the subscription announcements (C29):
+`streamHandler.handleSubscriptions` and the end of a session, for ONE (peer, link) tuple. Model of
+the code after "fix: floodsub kept the subscriptions of a closed session". -/
+namespace Recv
+
+structure State where
+  cur : Option Nat := none     -- the session registered in `m.peers[tpl]`
+  next : Nat := 0              -- fresh session identities
+  live : List Nat := []        -- sessions whose read pump may still deliver packets
+  know : List Nat := []        -- channels c with `tpl ∈ m.peerChannels[c]`
+deriving Repr, DecidableEq
+
+inductive Ev where
+  | start                          -- `AddPeerStream` + initialisation by `Execute` (replaces the registered session)
+  | recv (k ch : Nat) (b : Bool)   -- session k's read pump handles one `SubscriptionOpts`
+  | endS (k : Nat)                 -- session k's goroutine exits
+deriving Repr, DecidableEq
+
+def step (s : State) : Ev → State
+  | .start => { s with cur := some s.next, next := s.next + 1, live := s.next :: s.live }
+  | .recv k ch b => if s.live.contains k then { s with know := Exec.applyChange s.know (ch, b) } else s
+  | .endS k =>
+    if s.cur = some k then { s with cur := none, live := s.live.filter (· ≠ k), know := [] }
+    else { s with live := s.live.filter (· ≠ k) }
+
+def run (s : State) (evs : List Ev) : State := evs.foldl step s
+
+/-- before the fix the table entry of the tuple survived the session -/
+def stepPre (s : State) : Ev → State
+  | .endS k =>
+    if s.cur = some k then { s with cur := none, live := s.live.filter (· ≠ k) }
+    else { s with live := s.live.filter (· ≠ k) }
+  | ev => step s ev
+
+def runPre (s : State) (evs : List Ev) : State := evs.foldl stepPre s
+
+end Recv
+
+/-! ## Part 7 — the per-session send queue (C29): `streamHandler.writePacket` (a BLOCKING send on
+the buffered channel `packetCh`), the session goroutine taking one packet at a time and writing
+it to the stream. A peer that does not read blocks the stream write. -/
+namespace SendQ
+
+structure State where
+  cap : Nat
+  queue : List Nat := []          -- `packetCh`
+  inflight : Option Nat := none   -- taken by the session goroutine, `stream.SendMsg` not yet returned
+  delivered : List Nat := []      -- written to the stream, in order
+  accepted : List Nat := []       -- ghost: packets for which `writePacket` returned
+  blocked : Nat := 0              -- ghost: `write` events that found the queue full (the caller stays blocked)
+deriving Repr, DecidableEq
+
+inductive Ev where
+  | write (p : Nat)   -- `writePacket(p)`; enabled only while the queue is not full
+  | take              -- the session goroutine receives from `packetCh`
+  | flush             -- `stream.SendMsg` returns (the peer read the bytes)
+deriving Repr, DecidableEq
+
+def step (s : State) : Ev → State
+  | .write p => if s.queue.length < s.cap then { s with queue := s.queue ++ [p], accepted := s.accepted ++ [p] }
+                else { s with blocked := s.blocked + 1 }
+  | .take =>
+    match s.inflight, s.queue with
+    | none, p :: q => { s with inflight := some p, queue := q }
+    | _, _ => s
+  | .flush =>
+    match s.inflight with
+    | some p => { s with inflight := none, delivered := s.delivered ++ [p] }
+    | none => s
+
+def run (s : State) (evs : List Ev) : State := evs.foldl step s
+
+/-- The seeded variant: `writePacket` returns without queueing when the queue is full. -/
+def stepDrop (s : State) : Ev → State
+  | .write p => if s.queue.length < s.cap then { s with queue := s.queue ++ [p], accepted := s.accepted ++ [p] }
+                else { s with accepted := s.accepted ++ [p] }
+  | ev => step s ev
+
+def runDrop (s : State) (evs : List Ev) : State := evs.foldl stepDrop s
+
+end SendQ
+
+/-! ## `handlePublish` over a whole packet (C27): the `for _, pkt := range pkts` loop -/
+
+/-- One `Packet.Publish` list: the entries are handled in order, each on the router state left
+by the previous one; the k-th result belongs to the k-th entry. -/
+def handlePublishBatch (verify : VerifyFn) (sum : SumFn) (mid : Bytes → Bytes) (r : Router)
+    (prevHop : Bytes) : List SignedMsg → Router × List (SignedMsg × PubRes × List Tpl)
+  | [] => (r, [])
+  | m :: ms =>
+    let (r1, res, fw) := handlePublishOne verify sum mid r prevHop m
+    let (r2, rest) := handlePublishBatch verify sum mid r1 prevHop ms
+    (r2, (m, res, fw) :: rest)
+
 end Pubsub
 end Bifrost
